@@ -1,7 +1,7 @@
 /-
   Spydr.Names.LemmasPass — `make_valid` as a whole, and the writer's pre-pass over a sibling list:
-  an induction principle for `assignGo` and the invariants it keeps (pairwise freshness, pairwise
-  distinct identifiers, per-element legality and rename flag), linked to `Spec.scopeOk`.
+  an induction principle for `assignGo` and the invariants it keeps (pairwise freshness of all written
+  forms, per-element legality and rename flag), linked to `Spec.scopeOk` / `Spec.netIdents`.
 -/
 import Spydr.Names.LemmasKey
 import Spydr.Names.ModelObs
@@ -10,25 +10,72 @@ namespace Spydr.Names
 
 /-! ### `make_valid` as a whole -/
 
-theorem makeValid_good {name : Str} (others : List Sib) (h : name ≠ []) : Good (makeValid name others) := by
+theorem makeValid_good {name : Str} (bits : List Nat) (others : List Sib) (h : name ≠ []) :
+    Good (makeValid bits name others) := by
   unfold makeValid makeValidF
-  exact conflictsFix_good _ _ _ (Good_charsFix (lengthFix_ne_nil h))
+  exact conflictsFix_good _ _ _ _ (Good_charsFix (lengthFix_ne_nil h))
 
-theorem makeValidF_finished {name : Str} (others : List Sib) (h : name ≠ [])
-    (hb : others.length < sibBound) : (makeValidF name others).2 = true := by
+theorem makeValidF_finished {name : Str} (bits : List Nat) (others : List Sib) (h : name ≠ [])
+    (hb : fuelFor bits others ≤ sibBound) : (makeValidF bits name others).2 = true := by
   unfold makeValidF
-  exact conflictsFix_finished_aux _ _ _ (Good_charsFix (lengthFix_ne_nil h)) (by simp [fuelFor]) hb
+  exact conflictsFix_finished_aux _ _ _ _ (Good_charsFix (lengthFix_ne_nil h)) (by omega) hb
 
-theorem makeValid_fresh_of_finished {name : Str} (others : List Sib)
-    (hfin : (makeValidF name others).2 = true) :
-    ∀ e ∈ others, lower e.name ≠ lower (makeValid name others) ∧
-      ∀ i, e.ident = some i → lower i ≠ lower (makeValid name others) := by
+theorem makeValid_fresh_of_finished {name : Str} (bits : List Nat) (others : List Sib)
+    (hfin : (makeValidF bits name others).2 = true) :
+    ∀ e ∈ others, ∀ m ∈ (forms bits (makeValid bits name others)).map lower, m ∉ theirForms e := by
   unfold makeValid makeValidF at *
-  exact (conflictsGood_iff _ _).mp (conflictsFix_fresh _ _ _ hfin)
+  have := (conflictsGood_iff _ _ _).mp (conflictsFix_fresh _ _ _ _ hfin)
+  rw [forms_lower] at this
+  exact this
+
+/-! ### size of a scope -/
+
+/-- upper bound for the number of strings one element contributes to a conflict check, in any state -/
+def weight (e : Sib) : Nat := 2 + e.bits.length
+
+def totalWeight (l : List Sib) : Nat := (l.map weight).sum
+
+theorem theirForms_length_le (e : Sib) : (theirForms e).length ≤ weight e := by
+  unfold theirForms weight forms
+  cases e.ident <;> simp <;> omega
+
+theorem flatMap_theirForms_length_le (l : List Sib) : (l.flatMap theirForms).length ≤ totalWeight l := by
+  induction l with
+  | nil => simp [totalWeight]
+  | cons e es ih =>
+    have := theirForms_length_le e
+    simp only [List.flatMap_cons, List.length_append, totalWeight, List.map_cons, List.sum_cons] at ih ⊢
+    omega
+
+theorem totalWeight_append (a b : List Sib) : totalWeight (a ++ b) = totalWeight a + totalWeight b := by
+  simp [totalWeight]
+
+/-- the fuel of any `make_valid` call inside a scope of total weight `W` is at most `W²` -/
+theorem fuelFor_le (done rest : List Sib) (x : Sib) :
+    fuelFor x.bits (done ++ rest) ≤ totalWeight (done ++ x :: rest) * totalWeight (done ++ x :: rest) := by
+  have h1 := flatMap_theirForms_length_le (done ++ rest)
+  have hw : totalWeight (done ++ x :: rest) = totalWeight (done ++ rest) + weight x := by
+    simp only [totalWeight, List.map_append, List.map_cons, List.sum_append, List.sum_cons]; omega
+  rw [hw]
+  unfold fuelFor
+  generalize (List.flatMap theirForms (done ++ rest)).length = F at *
+  generalize totalWeight (done ++ rest) = W at *
+  have hx : 1 + x.bits.length ≤ weight x := by unfold weight; omega
+  have hx2 : 2 ≤ weight x := by unfold weight; omega
+  generalize weight x = w at *
+  generalize 1 + x.bits.length = b at *
+  calc F * b + 1 ≤ W * w + 1 := by have := Nat.mul_le_mul h1 hx; omega
+    _ ≤ (W + w) * (W + w) := by
+        rw [Nat.add_mul, Nat.mul_add, Nat.mul_add]
+        have : 1 ≤ w * w := Nat.mul_pos (by omega) (by omega)
+        omega
 
 /-! ### the pre-pass -/
 
 @[simp] theorem assignOne_name (x : Sib) (others : List Sib) : (assignOne x others).name = x.name := by
+  unfold assignOne; split <;> rfl
+
+@[simp] theorem assignOne_bits (x : Sib) (others : List Sib) : (assignOne x others).bits = x.bits := by
   unfold assignOne; split <;> rfl
 
 theorem assignOne_of_some {x : Sib} {i : Str} (h : x.ident = some i) (others : List Sib) :
@@ -37,12 +84,22 @@ theorem assignOne_of_some {x : Sib} {i : Str} (h : x.ident = some i) (others : L
 
 theorem assignOne_of_none {x : Sib} (h : x.ident = none) (others : List Sib) :
     assignOne x others =
-      { x with ident := some (makeValid x.name others),
-               rename := x.rename || (makeValid x.name others != x.name), assigned := true } := by
+      { x with ident := some (makeValid x.bits x.name others),
+               rename := x.rename || (makeValid x.bits x.name others != x.name), assigned := true } := by
   unfold assignOne; rw [h]
 
+/-- how heavy a scope the pass theorems allow: `totalWeight² ≤ sibBound` -/
+def weightBound : Nat := 10 ^ 100
+
 /-- side conditions carried through the pass: every element is named, the scope is not astronomically large -/
-def PassOk (l : List Sib) : Prop := (∀ y ∈ l, y.name ≠ []) ∧ l.length ≤ sibBound
+def PassOk (l : List Sib) : Prop := (∀ y ∈ l, y.name ≠ []) ∧ totalWeight l ≤ weightBound
+
+theorem PassOk.fuel {done rest : List Sib} {x : Sib} (h : PassOk (done ++ x :: rest)) :
+    fuelFor x.bits (done ++ rest) ≤ sibBound := by
+  refine Nat.le_trans (fuelFor_le done rest x) ?_
+  have := Nat.mul_le_mul h.2 h.2
+  refine Nat.le_trans this ?_
+  simp [weightBound, sibBound]
 
 theorem assignGo_induct (I : List Sib → Prop)
     (hstep : ∀ done x rest, PassOk (done ++ x :: rest) → I (done ++ x :: rest) →
@@ -62,7 +119,10 @@ theorem assignGo_induct (I : List Sib → Prop)
         · exact hok.1 y (by simp [hy])
         · rw [assignOne_name]; exact hok.1 x (by simp)
         · exact hok.1 y (by simp [hy])
-      · have := hok.2; simp only [List.length_append, List.length_cons, List.length_nil] at this ⊢; omega
+      · have := hok.2
+        simp only [totalWeight, List.map_append, List.map_cons, List.sum_append, List.sum_cons, weight,
+          assignOne_bits, List.map_nil, List.sum_nil] at this ⊢
+        omega
     · have := hstep done x rest hok h
       simpa using this
 
@@ -78,58 +138,56 @@ theorem pairwise_replace {Q : Sib → Sib → Prop} {done rest : List Sib} {x x'
   · exact h1 a ha (hdr a ha x (by simp))
   · exact hdr a ha b (by simp [hb'])
 
-/-- `a`'s identifier, if the writer assigned it, differs (ignoring case) from `b`'s name and identifier -/
+/-- every identifier written for `a`, if the writer assigned `a`'s identifier, differs (ignoring case)
+    from `b`'s name and from every identifier written for `b` -/
 def FreshAgainst (a b : Sib) : Prop :=
   a.assigned = true → ∀ i, a.ident = some i →
-    lower i ≠ lower b.name ∧ ∀ j, b.ident = some j → lower i ≠ lower j
+    ∀ m ∈ (forms a.bits i).map lower, m ∉ theirForms b
 
-/-- identifiers of `a` and `b` differ ignoring case -/
-def IdentsDiffer (a b : Sib) : Prop :=
-  ∀ i j, a.ident = some i → b.ident = some j → lower i ≠ lower j
+/-- the identifiers written for `a` and for `b` differ ignoring case -/
+def FormsDiffer (a b : Sib) : Prop :=
+  ∀ i j, a.ident = some i → b.ident = some j →
+    ∀ m ∈ (forms a.bits i).map lower, m ∉ (forms b.bits j).map lower
 
-theorem assignOne_fresh {x : Sib} {others : List Sib} (hn : x.name ≠ [])
-    (hb : others.length < sibBound) :
-    ∀ e ∈ others, lower e.name ≠ lower (makeValid x.name others) ∧
-      ∀ i, e.ident = some i → lower i ≠ lower (makeValid x.name others) :=
-  makeValid_fresh_of_finished others (makeValidF_finished others hn hb)
+theorem mem_theirForms_of_ident {a : Sib} {i m : Str} (hi : a.ident = some i)
+    (hm : m ∈ (forms a.bits i).map lower) : m ∈ theirForms a := by
+  unfold theirForms; rw [hi]; exact List.mem_cons_of_mem _ hm
 
 theorem step_freshAgainst {done rest : List Sib} {x : Sib} (hok : PassOk (done ++ x :: rest)) :
     ∀ a ∈ done ++ rest,
       (FreshAgainst a x → FreshAgainst a (assignOne x (done ++ rest))) ∧
       (FreshAgainst x a → FreshAgainst (assignOne x (done ++ rest)) a) ∧
-      (IdentsDiffer a x → IdentsDiffer a (assignOne x (done ++ rest))) ∧
-      (IdentsDiffer x a → IdentsDiffer (assignOne x (done ++ rest)) a) := by
+      (FormsDiffer a x → FormsDiffer a (assignOne x (done ++ rest))) ∧
+      (FormsDiffer x a → FormsDiffer (assignOne x (done ++ rest)) a) := by
   intro a ha
   cases hx : x.ident with
   | some i =>
     rw [assignOne_of_some hx]
     exact ⟨id, id, id, id⟩
   | none =>
-    have hlen : (done ++ rest).length < sibBound := by
-      have := hok.2; simp only [List.length_append, List.length_cons] at this ⊢; omega
-    have hfresh := assignOne_fresh (hok.1 x (by simp)) hlen a ha
+    have hfin := makeValidF_finished x.bits (done ++ rest) (hok.1 x (by simp)) hok.fuel
+    have hfresh := makeValid_fresh_of_finished x.bits (done ++ rest) hfin a ha
     rw [assignOne_of_none hx]
     refine ⟨?_, ?_, ?_, ?_⟩
-    · intro h ha' i hi
-      obtain ⟨h1, _⟩ := h ha' i hi
-      refine ⟨h1, ?_⟩
-      intro j hj
-      simp only [Option.some.injEq] at hj
-      subst hj
-      exact hfresh.2 i hi
-    · intro _ _ i hi
+    · intro h ha' i hi m hm hmem
+      have hold := h ha' i hi m hm
+      simp only [theirForms, hx, List.mem_cons, List.not_mem_nil, or_false] at hold
+      simp only [theirForms, List.mem_cons] at hmem
+      rcases hmem with hmem | hmem
+      · exact hold hmem
+      · exact hfresh m hmem (mem_theirForms_of_ident hi hm)
+    · intro _ _ i hi m hm
       simp only [Option.some.injEq] at hi
       subst hi
-      exact ⟨fun h => hfresh.1 h.symm, fun j hj h => hfresh.2 j hj h.symm⟩
-    · intro _ i j hi hj
+      exact hfresh m hm
+    · intro _ i j hi hj m hm hmem
       simp only [Option.some.injEq] at hj
       subst hj
-      exact hfresh.2 i hi
-    · intro _ i j hi hj
+      exact hfresh m hmem (mem_theirForms_of_ident hi hm)
+    · intro _ i j hi hj m hm hmem
       simp only [Option.some.injEq] at hi
       subst hi
-      exact fun h => hfresh.2 j hj h.symm
-
+      exact hfresh m hm (mem_theirForms_of_ident hj hmem)
 
 /-- what holds between any two elements of a scope during and after the pass -/
 def PairOk (a b : Sib) : Prop := FreshAgainst a b ∧ FreshAgainst b a
@@ -147,14 +205,21 @@ theorem assignGo_pairOk (todo done : List Sib) (hok : PassOk (done ++ todo))
     have := hs b (by simp [hb])
     exact ⟨this.2.1 hq.1, this.1 hq.2⟩
 
-theorem assignGo_identsDiffer (todo done : List Sib) (hok : PassOk (done ++ todo))
-    (h : List.Pairwise IdentsDiffer (done ++ todo)) : List.Pairwise IdentsDiffer (assignGo done todo) := by
-  refine assignGo_induct (fun L => List.Pairwise IdentsDiffer L) ?_ todo done hok h
+/-- both directions, so that the relation is symmetric under `pairwise_replace` -/
+def FormsDiffer2 (a b : Sib) : Prop := FormsDiffer a b ∧ FormsDiffer b a
+
+theorem assignGo_formsDiffer (todo done : List Sib) (hok : PassOk (done ++ todo))
+    (h : List.Pairwise FormsDiffer2 (done ++ todo)) : List.Pairwise FormsDiffer2 (assignGo done todo) := by
+  refine assignGo_induct (fun L => List.Pairwise FormsDiffer2 L) ?_ todo done hok h
   intro done x rest hok h
   have hs := step_freshAgainst hok
   refine pairwise_replace h ?_ ?_
-  · intro a ha hq; exact (hs a (by simp [ha])).2.2.1 hq
-  · intro b hb hq; exact (hs b (by simp [hb])).2.2.2 hq
+  · intro a ha hq
+    have := hs a (by simp [ha])
+    exact ⟨this.2.2.1 hq.1, this.2.2.2 hq.2⟩
+  · intro b hb hq
+    have := hs b (by simp [hb])
+    exact ⟨this.2.2.2 hq.1, this.2.2.1 hq.2⟩
 
 /-- what holds of every single element the writer named: the identifier is well-shaped and a
     changed name is flagged -/
@@ -168,7 +233,7 @@ theorem assignOne_elemOk {x : Sib} (others : List Sib) (hn : x.name ≠ []) (h :
   | none =>
     rw [assignOne_of_none hx]
     intro _
-    refine ⟨_, rfl, makeValid_good others hn, ?_⟩
+    refine ⟨_, rfl, makeValid_good _ others hn, ?_⟩
     intro hne
     simp only [Bool.or_eq_true, bne_iff_ne, ne_eq]
     exact Or.inr hne
@@ -185,6 +250,12 @@ theorem assignGo_elemOk (todo done : List Sib) (hok : PassOk (done ++ todo))
 
 theorem assignGo_names (todo done : List Sib) :
     (assignGo done todo).map (·.name) = (done ++ todo).map (·.name) := by
+  induction todo generalizing done with
+  | nil => simp [assignGo]
+  | cons x rest ih => simp only [assignGo]; rw [ih]; simp
+
+theorem assignGo_bits (todo done : List Sib) :
+    (assignGo done todo).map (·.bits) = (done ++ todo).map (·.bits) := by
   induction todo generalizing done with
   | nil => simp [assignGo]
   | cons x rest ih => simp only [assignGo]; rw [ih]; simp
@@ -207,12 +278,6 @@ theorem assignGo_all_some (todo done : List Sib) (h : ∀ y ∈ done, y.ident.is
     · exact h y hy
     · exact assignOne_ident_isSome _ _
 
-theorem assignOne_assigned_iff (x : Sib) (others : List Sib) (h : x.assigned = false) :
-    (assignOne x others).assigned = true ↔ x.ident = none := by
-  cases hx : x.ident with
-  | some i => rw [assignOne_of_some hx, h]; simp
-  | none => rw [assignOne_of_none hx]; simp
-
 /-! ### link to the specification -/
 
 theorem mem_splits {α : Type} {l p q : List α} {x : α} (h : (p, x, q) ∈ Spec.splits l) : l = p ++ x :: q := by
@@ -233,10 +298,17 @@ theorem pairwise_split {Q : Sib → Sib → Prop} {p q : List Sib} {x : Sib}
   · exact (hpx z hz x (by simp)).2
   · exact (hx z hz).1
 
-theorem lower_eq_nil {s : Str} (h : lower s = []) : s = [] := by
-  simpa [lower] using h
+theorem wireIdent_eq (id : Str) (i : Nat) : Spec.wireIdent id i = bitIdent id i := by
+  simp [Spec.wireIdent, bitIdent]
 
-theorem scopeOk_of_invariants {L : List Sib}
+theorem emitted_observeOne (x : Sib) : Spec.emitted (observeOne x) = forms x.bits (x.ident.getD []) := by
+  simp only [Spec.emitted, observeOne, forms]
+  congr 1
+  apply List.map_congr_left
+  intro i _
+  exact wireIdent_eq _ i
+
+theorem scopeOk_of_invariants {L : List Sib} (hsome : ∀ y ∈ L, y.ident.isSome = true)
     (hpair : List.Pairwise PairOk L) (helem : ∀ y ∈ L, ElemOk y) :
     Spec.scopeOk (observe L) = true := by
   unfold Spec.scopeOk
@@ -265,29 +337,53 @@ theorem scopeOk_of_invariants {L : List Sib}
       intro Y hY
       rw [← List.map_append] at hY
       obtain ⟨z, hz, rfl⟩ := List.mem_map.mp hY
-      obtain ⟨h1, h2⟩ := hfresh z hz hxa i hi
+      have hfz := hfresh z hz hxa i hi
+      obtain ⟨j, hj⟩ := Option.isSome_iff_exists.mp (hsome z (by
+        simp only [List.mem_append, List.mem_cons] at hz ⊢
+        rcases hz with hz | hz
+        · exact Or.inl hz
+        · exact Or.inr (Or.inr hz)))
+      rw [List.all_eq_true]
+      intro m hm
+      rw [emitted_observeOne, hi, Option.getD_some] at hm
+      have hml : lower m ∈ (forms x.bits i).map lower := List.mem_map_of_mem hm
+      have hnot := hfz (lower m) hml
+      simp only [theirForms, hj, List.mem_cons, List.mem_map, not_or, not_exists, not_and] at hnot
       simp only [Bool.and_eq_true, Bool.not_eq_true']
-      rw [hXi]
       refine ⟨?_, ?_⟩
-      · rw [Bool.eq_false_iff]; intro hc; exact h1 ((ciEq_iff _ _).mp hc)
       · rw [Bool.eq_false_iff]; intro hc
-        have hc' := (ciEq_iff _ _).mp hc
-        cases hz' : z.ident with
-        | none =>
-          simp only [observeOne, hz', Option.getD_none] at hc'
-          have : i = [] := lower_eq_nil (by rw [hc']; rfl)
-          exact hgood.1.ne_nil this
-        | some j =>
-          simp only [observeOne, hz', Option.getD_some] at hc'
-          exact h2 j hz' hc'
+        exact hnot.1 ((ciEq_iff _ _).mp hc)
+      · rw [List.all_eq_true]
+        intro m' hm'
+        rw [emitted_observeOne, hj, Option.getD_some] at hm'
+        simp only [Bool.not_eq_true']
+        rw [Bool.eq_false_iff]; intro hc
+        exact hnot.2 m' hm' ((ciEq_iff _ _).mp hc).symm
     · rw [hXi]
       by_cases hne : i = x.name
       · simp [observeOne, hne]
       · have := hren hne
         simp [observeOne, this]
 
+theorem allDistinct_iff (l : List Str) :
+    Spec.allDistinct l = true ↔ l.Pairwise (fun a b => lower a ≠ lower b) := by
+  induction l with
+  | nil => simp [Spec.allDistinct]
+  | cons x xs ih =>
+    simp only [Spec.allDistinct, Bool.and_eq_true, List.all_eq_true, Bool.not_eq_true', List.pairwise_cons, ih]
+    constructor
+    · rintro ⟨h1, h2⟩
+      refine ⟨fun y hy hc => ?_, h2⟩
+      have := h1 y hy
+      rw [Bool.eq_false_iff] at this
+      exact this ((ciEq_iff _ _).mpr hc)
+    · rintro ⟨h1, h2⟩
+      refine ⟨fun y hy => ?_, h2⟩
+      rw [Bool.eq_false_iff]; intro hc
+      exact h1 y hy ((ciEq_iff _ _).mp hc)
+
 theorem identsDistinct_of_pairwise {L : List Sib} (hsome : ∀ y ∈ L, y.ident.isSome = true)
-    (h : List.Pairwise IdentsDiffer L) : Spec.identsDistinct (observe L) = true := by
+    (h : List.Pairwise FormsDiffer2 L) : Spec.identsDistinct (observe L) = true := by
   induction L with
   | nil => rfl
   | cons x xs ih =>
@@ -303,6 +399,95 @@ theorem identsDistinct_of_pairwise {L : List Sib} (hsome : ∀ y ∈ L, y.ident.
     rw [Bool.eq_false_iff]; intro hc
     have hc' := (ciEq_iff _ _).mp hc
     simp only [observeOne, hi, hj, Option.getD_some] at hc'
-    exact h.1 z hz i j hi hj hc'
+    refine (h.1 z hz).1 i j hi hj (lower i) ?_ ?_
+    · simp [forms]
+    · rw [hc']; simp [forms]
+
+/-- the net identifiers of `Spec.netIdents` on the observation are the model's `emittedNetIdents` -/
+theorem netIdents_observe {L : List Sib} (hsome : ∀ y ∈ L, y.ident.isSome = true) :
+    Spec.netIdents (observe L) = emittedNetIdents L := by
+  induction L with
+  | nil => rfl
+  | cons x xs ih =>
+    obtain ⟨i, hi⟩ := Option.isSome_iff_exists.mp (hsome x (by simp))
+    have := ih (fun y hy => hsome y (by simp [hy]))
+    simp only [Spec.netIdents, observe, emittedNetIdents, List.map_cons, List.flatMap_cons] at this ⊢
+    rw [this]
+    congr 1
+    simp only [observeOne, hi, Option.getD_some]
+    split
+    · rfl
+    · apply List.map_congr_left; intro k _; exact wireIdent_eq _ k
+
+theorem netIdents_distinct_of_pairwise {L : List Sib}
+    (hbits : ∀ y ∈ L, y.bits.Nodup) (h : List.Pairwise FormsDiffer2 L) :
+    Spec.allDistinct (emittedNetIdents L) = true := by
+  rw [allDistinct_iff]
+  unfold emittedNetIdents
+  rw [List.pairwise_flatMap]
+  refine ⟨?_, ?_⟩
+  · intro a ha
+    cases hi : a.ident with
+    | none => simp
+    | some i =>
+      simp only
+      split
+      · simp
+      · rw [List.pairwise_map]
+        apply List.Pairwise.imp _ (hbits a ha)
+        intro k k' hkk hc
+        rw [lower_bitIdent, lower_bitIdent] at hc
+        exact hkk (bitIdent_inj_index hc)
+  · apply List.Pairwise.imp _ h
+    intro a b hab m hm m' hm' hc
+    cases hi : a.ident with
+    | none => simp [hi] at hm
+    | some i =>
+      cases hj : b.ident with
+      | none => simp [hj] at hm'
+      | some j =>
+        simp only [hi, hj] at hm hm'
+        have hmf : m ∈ forms a.bits i := by
+          split at hm
+          · simp only [List.mem_cons, List.not_mem_nil, or_false] at hm; subst hm; simp [forms]
+          · exact List.mem_cons_of_mem _ hm
+        have hmf' : m' ∈ forms b.bits j := by
+          split at hm'
+          · simp only [List.mem_cons, List.not_mem_nil, or_false] at hm'; subst hm'; simp [forms]
+          · exact List.mem_cons_of_mem _ hm'
+        exact hab.1 i j hi hj (lower m) (List.mem_map_of_mem hmf) (by rw [hc]; exact List.mem_map_of_mem hmf')
+
+/-! ### reading a written name back -/
+
+theorem Good.no_blank {i : Str} (h : Good i) : ∀ c ∈ i, (c != ' ') = true := by
+  obtain ⟨hs, _⟩ := h
+  cases i with
+  | nil => exact hs.elim
+  | cons c r =>
+    intro d hd
+    rcases List.mem_cons.mp hd with rfl | hd
+    · rcases hs.1 with h1 | ⟨h1, _⟩
+      · rw [bne_iff_ne]; rintro rfl; revert h1; decide
+      · subst h1; decide
+    · have := hs.2
+      rw [List.all_eq_true] at this
+      have hk := this d hd
+      rw [bne_iff_ne]; rintro rfl; revert hk; decide
+
+theorem takeWhile_append_stop {p : Char → Bool} {l r : Str} {c : Char}
+    (hl : ∀ a ∈ l, p a = true) (hc : p c = false) :
+    (l ++ c :: r).takeWhile p = l ∧ (l ++ c :: r).dropWhile p = c :: r := by
+  rw [List.takeWhile_append_of_pos hl, List.dropWhile_append_of_pos hl]
+  simp [hc]
+
+theorem readName_rename {i n : Str} (hi : Good i) (hn : ∀ c ∈ n, (c != '"') = true) :
+    readName (true, ['r', 'e', 'n', 'a', 'm', 'e', ' '] ++ i ++ [' ', '"'] ++ n ++ ['"']) = some (i, n) := by
+  have h1 : List.drop 7 (['r', 'e', 'n', 'a', 'm', 'e', ' '] ++ i ++ [' ', '"'] ++ n ++ ['"'])
+      = i ++ ' ' :: ('"' :: (n ++ ['"'])) := by simp
+  obtain ⟨ht, hd⟩ := takeWhile_append_stop (p := (· != ' ')) (l := i) (r := '"' :: (n ++ ['"'])) (c := ' ')
+    hi.no_blank (by decide)
+  obtain ⟨ht2, hd2⟩ := takeWhile_append_stop (p := (· != '"')) (l := n) (r := []) (c := '"') hn (by decide)
+  simp only [readName, Bool.not_true, Bool.false_eq_true, if_false, h1, ht, hd, ht2, hd2]
+  simp
 
 end Spydr.Names
